@@ -190,8 +190,8 @@ def main():
                            "finite non-negative states and constants within about +-12 decades"])
     run.require("euler_step_checks", "kinetics_checks", "dxdtf_checks")
     thorough = tier() == "thorough"
-    n_total = 20000 if thorough else 6400
-    n_py = 3000 if thorough else 720
+    n_total = 40000 if thorough else 6400
+    n_py = 6000 if thorough else 720
     cases = [{"seed": seed(), "idx": i, "python": i < n_py} for i in range(n_total)]
     res = pmap("vf.checks.c01:run_case", cases, cpu_budget=60)
     worst = 0.0
